@@ -3,6 +3,7 @@ package main
 import (
 	"fmt"
 	"strings"
+	"time"
 
 	"github.com/jrhy/s3db"
 
@@ -30,7 +31,9 @@ func init() {
 			}
 			return 60
 		},
-		Run: runC20,
+		Run:             runC20,
+		HangIsViolation: true,
+		CaseTimeout:     90 * time.Second,
 		Assumptions: []string{
 			"the expectation is derived from the README's argument reference and the usage text of the module",
 			"tables without a PRIMARY KEY are accepted by the grammar; their row identity column is hidden and not part of the comparison",
@@ -406,6 +409,31 @@ func runC20(c *Case) {
 			}
 		}
 		conn.Exec("drop table " + t)
+	}
+	// a name in use by another connection of the process is refused, and nothing blocks afterwards
+	{
+		other := OpenConn("other")
+		t1 := tname(c, "dup")
+		ok1 := func() bool {
+			_, err := create(t1, append([]string{"columns='k primary key, v'"}, storageOpts("dup1")...))
+			return err == nil
+		}()
+		if ok1 {
+			q := fmt.Sprintf("create virtual table %s using s3db (%s)", t1, strings.Join(append([]string{"columns='k primary key, v'"}, storageOpts("dup2")...), ", "))
+			if err := other.Exec(q); err == nil {
+				c.Violate("C20:duplicate-name-accepted", "a second connection created an s3db table under a name already registered in the process", nil)
+			}
+			c.Count("cross_connection_duplicates", 1)
+			// both connections still work
+			t2 := tname(c, "dup")
+			if _, err := create(t2, append([]string{"columns='k primary key, v'"}, storageOpts("dup3")...)); err != nil {
+				c.Violate("C20:create-after-refused-duplicate", "after a refused duplicate name, a valid CREATE fails: "+err.Error(), nil)
+			} else {
+				conn.Exec("drop table " + t2)
+			}
+			conn.Exec("drop table " + t1)
+		}
+		other.Close()
 	}
 	if len(classes) == 3 {
 		c.NonTrivial(canon.String())
